@@ -35,6 +35,9 @@ func gen(r *sim.Rng, tier string) *sim.Case {
 		if r.Pct(2) {
 			n = r.Range(13, 17) // rare large instance: 2^17 subsets are still enumerable
 		}
+		if r.Pct(1) {
+			n = r.Range(18, 40) // rarer: beyond enumeration; the oracle is an independent DP
+		}
 		wdom := []int{3, 6, 12, 30}[r.N(4)] // small domains: many equal weights and values
 		if r.Pct(4) {
 			wdom = []int{300, 2000, 5000}[r.N(3)] // rare: big weights, big limits
@@ -191,20 +194,35 @@ func knap(c *sim.Case, out *sim.WorkerOut, dg *engc.Digest) *sim.Violation {
 		return viol("over_limit", "Knapsack", "selection weighs %d, limit %d", tw, limit)
 	}
 	best := 0
-	for m := 0; m < 1<<len(its); m++ {
-		w, v := 0, 0
-		for i, it := range its {
-			if m&(1<<i) != 0 {
-				w += it.w
-				v += it.v
+	how := "brute force over all subsets"
+	if len(its) <= 17 {
+		for m := 0; m < 1<<len(its); m++ {
+			w, v := 0, 0
+			for i, it := range its {
+				if m&(1<<i) != 0 {
+					w += it.w
+					v += it.v
+				}
+			}
+			if w <= limit && v > best {
+				best = v
 			}
 		}
-		if w <= limit && v > best {
-			best = v
+	} else {
+		// too many items to enumerate: an independent textbook DP over capacities
+		how = "an independent DP over capacities"
+		tab := make([]int, limit+1)
+		for _, it := range its {
+			for cpt := limit; cpt >= it.w; cpt-- {
+				if v := tab[cpt-it.w] + it.v; v > tab[cpt] {
+					tab[cpt] = v
+				}
+			}
 		}
+		best = tab[limit]
 	}
 	if tv != best {
-		return viol("not_optimal", "Knapsack", "selection has value %d, brute force over all %d subsets finds %d (limit %d)", tv, 1<<len(its), best, limit)
+		return viol("not_optimal", "Knapsack", "selection has value %d, %s finds %d (%d items, limit %d)", tv, how, best, len(its), limit)
 	}
 	return nil
 }
@@ -219,14 +237,28 @@ func solvers(c *sim.Case, out *sim.WorkerOut, dg *engc.Digest) *sim.Violation {
 	dp := algz.FindDpSolvers(limit, its, func(i item) int { return i.w }, over, breakerOf(c.P("breaker"))...)
 	// brute force: attainable totals
 	att := map[int]bool{}
-	for m := 0; m < 1<<len(its); m++ {
-		w := 0
-		for i, it := range its {
-			if m&(1<<i) != 0 {
-				w += it.w
+	if len(its) <= 17 {
+		for m := 0; m < 1<<len(its); m++ {
+			w := 0
+			for i, it := range its {
+				if m&(1<<i) != 0 {
+					w += it.w
+				}
+			}
+			att[w] = true
+		}
+	} else {
+		// independent reachability DP over sums
+		att[0] = true
+		for _, it := range its {
+			var add []int
+			for t := range att {
+				add = append(add, t+it.w)
+			}
+			for _, t := range add {
+				att[t] = true
 			}
 		}
-		att[w] = true
 	}
 	minOver := -1
 	maxUnder := 0
